@@ -20,14 +20,14 @@ def laterEvents (env : Env V) (ops : List (Op V)) (k : Nat) (c : Call V) (b : Na
     | none => []
   | none => []
 
-theorem callEvents_eq (env : Env V) (ex : Exports) (ops : List (Op V)) (k : Nat) (hwf : NamedIfaces (exportsAt ex ops k))
+theorem callEvents_eq (env : Env V) (ex : Exports) (ops : List (Op V)) (k : Nat)
     (c : Call V) (b : Nat → Outcome V) (hk : ops[k]? = some (.call c b)) :
     callEvents env ex ops k =
       callInv c (verdict (exportsAt ex ops k) c) ++ callReplies env k c b (verdict (exportsAt ex ops k) c) ++
         laterEvents env ops k c b (verdict (exportsAt ex ops k) c) := by
   unfold callEvents laterEvents
   rw [hk]
-  simp only [handleCall_eq env (exportsAt ex ops k) k c b hwf, expectedCall_split]
+  simp only [handleCall_eq env (exportsAt ex ops k) k c b, expectedCall_split]
   cases callPending k c b (verdict (exportsAt ex ops k) c) with
   | none => rfl
   | some p => cases firstResolve k (List.drop (k + 1) ops) <;> rfl
@@ -59,18 +59,18 @@ theorem laterEvents_replyish (env : Env V) (ops : List (Op V)) (k : Nat) (c : Ca
       exact this
 
 /-- Replies of call `k`: the immediate ones, then the ones its Deferred fired. -/
-theorem replies_callEvents (env : Env V) (ex : Exports) (ops : List (Op V)) (k : Nat) (hwf : NamedIfaces (exportsAt ex ops k))
+theorem replies_callEvents (env : Env V) (ex : Exports) (ops : List (Op V)) (k : Nat)
     (c : Call V) (b : Nat → Outcome V) (hk : ops[k]? = some (.call c b)) :
     replies (callEvents env ex ops k) =
       replies (callReplies env k c b (verdict (exportsAt ex ops k) c)) ++ replies (laterEvents env ops k c b (verdict (exportsAt ex ops k) c)) := by
-  rw [callEvents_eq env ex ops k hwf c b hk, replies_append, replies_append, callInv_replies]
+  rw [callEvents_eq env ex ops k c b hk, replies_append, replies_append, callInv_replies]
   simp
 
 /-- Invocations of call `k`. -/
-theorem invocations_callEvents (env : Env V) (ex : Exports) (ops : List (Op V)) (k : Nat) (hwf : NamedIfaces (exportsAt ex ops k))
+theorem invocations_callEvents (env : Env V) (ex : Exports) (ops : List (Op V)) (k : Nat)
     (c : Call V) (b : Nat → Outcome V) (hk : ops[k]? = some (.call c b)) :
     invocations (callEvents env ex ops k) = expectedInvocations c (verdict (exportsAt ex ops k) c) := by
-  rw [callEvents_eq env ex ops k hwf c b hk, invocations_append, invocations_append,
+  rw [callEvents_eq env ex ops k c b hk, invocations_append, invocations_append,
     (callReplies_replyish env k c b _).invocations, (laterEvents_replyish env ops k c b _).invocations,
     callInv_invocations]
   simp
@@ -99,14 +99,14 @@ theorem immediate_or_later (env : Env V) (ops : List (Op V)) (k : Nat) (c : Call
 
 /-- The replies to a dispatched call that expects one: what its result (now, or through the
 Deferred) makes `send_reply` / `send_error` send. -/
-theorem replies_run (env : Env V) (ex : Exports) (ops : List (Op V)) (k : Nat) (hwf : NamedIfaces (exportsAt ex ops k))
+theorem replies_run (env : Env V) (ex : Exports) (ops : List (Op V)) (k : Nat)
     (c : Call V) (b : Nat → Outcome V) (hk : ops[k]? = some (.call c b)) (f : Func) (m : Method)
     (hv : verdict (exportsAt ex ops k) c = .run f m) (he : c.expectReply = true) :
     replies (callEvents env ex ops k) =
       match resultOf ops k (b f.id) with
       | some res => replies (fire env (pendingOf k c m) res)
       | none => [] := by
-  rw [replies_callEvents env ex ops k hwf c b hk, hv]
+  rw [replies_callEvents env ex ops k c b hk, hv]
   unfold laterEvents resultOf
   simp only [callReplies, callPending, he, if_true]
   cases b f.id with
